@@ -1,11 +1,18 @@
 /-
   Line protocol of the HDM model (HDDDM / CDBD), run at `Float`.
 
-    new hdm <H|KL|tv|shift> <detect_batch> <t|s> <signif> <univariate 0|1>
+    new hdm <H|KL|tv|shift|skew> <detect_batch> <t|s> <signif> <univariate 0|1>
     setref <rows> <cols> <eps0> <tcrit> <df|_> <x…>     (row-major bit patterns)
     batch  <rows> <cols> <eps0> <tcrit> <df|_> <x…>
     hist <bins> <lo> <hi> <x…>                          → counts of `np.histogram`
-    dist <H|KL|tv|shift> <k> <r₁…r_k> <t₁…t_k>          → distance of two count vectors
+  Bootstrap form (Model/HDMBoot.lean): in `setref` / `batch` the `<eps0>` field may instead be
+    D<subsets>[/<i,i,…>]*      the row positions drawn by `DataFrame.sample`, one `/`-group per subset
+                               (`D3` alone = the call drew nothing; `D1/` = one empty draw)
+  and ε₀ is computed by the model (`updateB`).  The output then has a 12th section
+    <eps0|_> <size|_> <ok|bad-draws> <pairwise distances of the subsets, comma separated|_>
+  (`bad-draws`: the draws are not `subsets` vectors of `size` row positions of the reference on a call
+  that bootstraps, or there are draws on a call that does not).
+    dist <H|KL|tv|shift|skew> <k> <r₁…r_k> <t₁…t_k>          → distance of two count vectors
 
   Output of setref / batch (sections separated by ` | `):
     ok <D|N> <total> <since> <refN> <bins> | curDist | new distances k:v,… | new epsilon_values |
@@ -15,6 +22,7 @@
 -/
 import MenelausVerif.Driver.Core
 import MenelausVerif.Model.HDM
+import MenelausVerif.Model.HDMBoot
 namespace MV.Driver
 open MV MV.HDM
 
@@ -31,11 +39,19 @@ private def userShift (r t : List Nat) : Float :=
   ((List.zip r t).zipIdx.foldl
     (fun acc p => acc + Float.ofNat (p.2 + 1) * (Float.ofNat p.1.2 / ts - Float.ofNat p.1.1 / rs)) 0.0)
 
+/-- user divergence "skew" (neither symmetric nor antisymmetric): `Σ (i+1)·(t_i/Σt − 2·r_i/Σr)` -/
+private def userSkew (r t : List Nat) : Float :=
+  let rs := Float.ofNat r.sum
+  let ts := Float.ofNat t.sum
+  ((List.zip r t).zipIdx.foldl
+    (fun acc p => acc + Float.ofNat (p.2 + 1) * (Float.ofNat p.1.2 / ts - 2.0 * Float.ofNat p.1.1 / rs)) 0.0)
+
 private def parseDiv? : String → Option (Divergence Float)
   | "H" => some .hellinger
   | "KL" => some .js
   | "tv" => some (.user userTV)
   | "shift" => some (.user userShift)
+  | "skew" => some (.user userSkew)
   | _ => none
 
 private structure HdmM where
@@ -101,7 +117,59 @@ private def parseDf? : String → Option (Option Nat)
   | "_" => some none
   | t => t.toNat?.map some
 
-private def hdmStep (m : HdmM) : List String → Option (String × HdmM)
+/-- `D<k>[/<i,i,…>]*` → (`subsets`, draws) -/
+private def parseDraws? (t : String) : Option (Nat × List (List Nat)) :=
+  match t.splitOn "/" with
+  | [] => none
+  | h :: gs =>
+    if h.startsWith "D" then
+      match (h.drop 1).toNat?, gs.mapM (fun g => if g == "" then some [] else (g.splitOn ",").mapM String.toNat?) with
+      | some k, some ds => some (k, ds)
+      | _, _ => none
+    else none
+
+/-- 12th output section of the bootstrap form -/
+private def bootOut (cfg : Cfg Float) (k : Nat) (draws : List (List Nat)) (pre : Option (State Float))
+    (X : List (List Float)) : String :=
+  match pre with
+  | some p =>
+    let ok := if drawsOk cfg k draws p then "ok" else "bad-draws"
+    match validBatch cfg p.dim X with
+    | some d =>
+      if bootDue cfg p then
+        let ds := bootDistances cfg.div (bootHists p.bins d (rangeOf p.reference X) p.reference draws)
+        showFloat (stepBootEps cfg k draws p d X) ++ " " ++ toString (bootSize Float k p.refN) ++ " " ++ ok ++
+          " " ++ (if ds.isEmpty then "_" else showList ds)
+      else "_ _ " ++ ok ++ " _"
+    | none => "_ _ " ++ ok ++ " _"
+  | none => "_ _ " ++ (if draws.isEmpty then "ok" else "bad-draws") ++ " _"
+
+private def hdmStepB (m : HdmM) : List String → Option (String × HdmM)
+  | "setref" :: r :: c :: e0 :: tc :: df :: xs =>
+    match r.toNat?, c.toNat?, parseDraws? e0, parseFloat? tc, parseDf? df, parseFloats? xs with
+    | some r, some c, some (_, draws), some tc, some _, some xs =>
+      match mkRows r c xs with
+      | some X =>
+        match setReferenceB m.cfg tc m.s X with
+        | some s' => some (hdmOut m.s none X none s' ++ " | " ++ bootOut m.cfg 0 draws none X, { m with s := s' })
+        | none => some ("reject", m)
+      | none => none
+    | _, _, _, _, _, _ => none
+  | "batch" :: r :: c :: e0 :: tc :: df :: xs =>
+    match r.toNat?, c.toNat?, parseDraws? e0, parseFloat? tc, parseDf? df, parseFloats? xs with
+    | some r, some c, some (k, draws), some tc, some df, some xs =>
+      match mkRows r c xs with
+      | some X =>
+        let pre := preStateB m.cfg tc m.s
+        match updateB m.cfg k { draws := draws, tcrit := tc } m.s X with
+        | some s' => some (hdmOut m.s pre X df s' ++ " | " ++ bootOut m.cfg k draws pre X, { m with s := s' })
+        | none => some ("reject", m)
+      | none => none
+    | _, _, _, _, _, _ => none
+  | _ => none
+
+/-- oracle form: ε₀ handed in -/
+private def hdmStepO (m : HdmM) : List String → Option (String × HdmM)
   | "setref" :: r :: c :: e0 :: tc :: df :: xs =>
     match r.toNat?, c.toNat?, parseFloat? e0, parseFloat? tc, parseDf? df, parseFloats? xs with
     | some r, some c, some e0, some tc, some _, some xs =>
@@ -124,6 +192,11 @@ private def hdmStep (m : HdmM) : List String → Option (String × HdmM)
         | none => some ("reject", m)
       | none => none
     | _, _, _, _, _, _ => none
+  | _ => none
+
+private def hdmStep (m : HdmM) : List String → Option (String × HdmM)
+  | kind :: r :: c :: e0 :: rest =>
+    if e0.startsWith "D" then hdmStepB m (kind :: r :: c :: e0 :: rest) else hdmStepO m (kind :: r :: c :: e0 :: rest)
   | _ => none
 
 private def hdmPure : List String → Option String
